@@ -378,7 +378,7 @@ pub fn cases(tier: Tier) -> Vec<Case> {
     for shape in 0..2 {
         for mode in 0..2 {
             for a in 0..n3 {
-                if tier == Tier::Quick && a % 3 != shape {
+                if tier == Tier::Quick && (a + seed() as usize) % 3 != shape {
                     continue;
                 }
                 for guess in 0..2 {
